@@ -12,7 +12,8 @@ EXPLANATION = (
     "bytes.len(); LenBytes -> Bytes happens only after pos reached 2, with a body buffer of exactly u16::from_be_bytes(len "
     "bytes) octets; positions only grow by the returned count; (Q1) write side: the first write of a message is the vectored "
     "[length[pos..], bytes] with length = to_be_bytes(len as u16); the state moves LenBytes -> Bytes -> Flushing -> None only "
-    "forward under the position tests; nothing is polled from outbound_messages while send_state is Some.")
+    "forward under the position tests; nothing is polled from outbound_messages while send_state is Some; (G3) the slice handed to poll_read is a re-borrow of the "
+    "buffer held in the read state (by-reference binding), never of a by-value copy of it.")
 NOT_DECIDED = ("Independence from chunking as such - a schedule property of the position arithmetic; these rules are its guard "
                "skeleton. The `as u16` cast is sound only because every producer encodes with a u16::MAX limit (C03.G1).")
 ASSUMPTIONS = ["FULL feature configuration", "AsyncRead/AsyncWrite contracts (returned count <= buffer length)"]
